@@ -1523,7 +1523,6 @@ func sameElem(a, b ssa.Value) bool {
 	return ok1 && ok2 && ia.X == ib.X && ia.Index == ib.Index
 }
 
-
 // jsn2TextOperandOfCompound (D37b): an and/or operand that is a plain string is a condition of its own and is grouped
 // like a nested object: what is appended to the operand list on the "is a string" edge is "(" + text + ")". Pasted raw,
 // `F.A || F.B` inside an `and` re-associates with its neighbours (A || (B && C)).
